@@ -24,6 +24,25 @@ the relay (not offered to the server, not reported delivered) while the ASCII re
 arrive intact and are reported delivered, or the whole message is refused; non-ASCII sender without SMTPUTF8 =>
 refused or intact; nothing arrives altered; 8-bit data without 8BITMIME => refused permanently, or intact, or converted so that it
 decodes to the same text (C20's clause).
+
+Audit extension (strata added after the coverage audit; each has its own counter / mechanism family):
+  many-recipients   60..300 recipients in one envelope (every transport)
+  long lines / big  header fields > 998 bytes, 300 fields, body lines of 1000..70000 bytes, bodies of 100..250 kB
+  header shapes     header-only data (no blank line), a line without colon, bare-LF header lines, a white-space-only
+                    continuation line
+  address classes   upper/mixed case local parts and domains, source routes (judged leniently: identical or route
+                    stripped), "Postmaster"
+  reply classes     the edge's queue answers with a RelayError (not only QueueError), a QueueError without reply;
+                    reply texts with quotes / semicolons / back-slashes / latin-1 / non-latin-1 / several lines /
+                    empty / long; Reply.command given as str or bytes (what the library's own relays produce)
+  client info       OBSERVED ONLY (not in the statement; counters client-info/agrees|disagrees/..., never a violation):
+                    client['name'] / ['protocol'] / ['ip'] / ['auth'] recorded by the edge vs what the relay was
+                    configured with (ehlo_as string or callable, TLS, AUTH, HELO fall-back); LHLO name for LMTP;
+                    X-Ehlo as shown to WsgiValidators.  Judged: WsgiValidators see the same sender / recipients
+  extensions        arbitrary extra keywords (hyphenated names, multi-word / numeric parameters), a server whose
+                    table changes after STARTTLS (pre-TLS-only keyword, AUTH and a different SIZE after TLS), three
+                    connections of one relay to servers with different tables (tables compared per connection;
+                    the conditional classes follow the table of the connection that carried the message)
 """
 import re
 import random
@@ -47,6 +66,7 @@ from slimta.edge.wsgi import WsgiEdge
 from slimta.smtp.server import Server as RealServer
 from slimta.smtp.reply import Reply
 from slimta.relay import RelayError, PermanentRelayError, TransientRelayError
+from slimta.relay.smtp import SmtpRelayError
 from slimta.relay.smtp.static import StaticSmtpRelay, StaticLmtpRelay
 from slimta.relay.smtp.client import SmtpRelayClient
 from slimta.relay.smtp.lmtpclient import LmtpRelayClient
@@ -59,10 +79,13 @@ LEVEL = 'exploration'
 LEVEL_TEXT = ('Real relay clients (StaticSmtpRelay, StaticLmtpRelay, HttpRelay) deliver generated envelopes to the '
               'library\'s own SmtpEdge (socketpair) / WsgiEdge (gevent.pywsgi on loopback) -- LMTP to an independent '
               'scripted server -- under a matrix of server configurations (PIPELINING / 8BITMIME / SMTPUTF8 / SIZE / '
-              'STARTTLS / AUTH advertised or not, HELO fall-back, connection reuse, 7-bit conversion). Sender, '
-              'recipient list, flattened content, extension tables and reported reply codes are compared exactly on '
-              'every hop. Held = held on the hops reported; not a proof for other addresses, messages or '
-              'configurations.')
+              'STARTTLS / AUTH advertised or not, extra keywords, a table that changes after STARTTLS, three servers '
+              'with different tables, HELO fall-back, connection reuse, 7-bit conversion). Sender, '
+              'recipient list (1..300 recipients), flattened content (lines up to 70 kB, bodies up to 250 kB, odd '
+              'header-block shapes), extension tables per connection, reported reply codes (queue / relay / validator '
+              'answers with nine reply-text classes and str / bytes commands) are compared exactly on every hop; the '
+              'client info the edge records is observed and counted only. Held = held on the hops reported; not a proof for other '
+              'addresses, messages or configurations.')
 LEVEL_NOTE = ('Trusted: the capture queue / recording session+validator subclasses (observe only, scripted refusals '
               'are decided by message ordinal and recipient index), the address grammar (RFC 5321 4.1.2 / RFC 6531 '
               '3.3), parse_path (35 lines), split_fields, vf.downstream for the LMTP leg, the stdlib decoder for the '
@@ -76,7 +99,14 @@ RULE = ('case = one relay+edge pair (transport x server configuration) and 1 or 
         '> @ space , < ; and quoted-pairs \\" \\\\, UTF-8 local parts/domains, null sender, 64-octet local parts, '
         'address literals), 1..5 recipients incl. duplicates, header blocks of 1..6 fields (folded, 8-bit, duplicate '
         'names, every line <= 78 bytes), bodies (dot lines, bare LF/CR, empty, no final newline, NUL, 8-bit, UTF-8 '
-        'text). non-trivial = a hop whose envelope has an address needing quoting / UTF-8 / null sender, or >= 2 '
+        'text). Audit strata (designed + random): 60..300 recipients; header fields > 998 bytes, 300 fields, '
+        'header-only data, a line without colon, bare-LF header lines, a white-space-only continuation line; body '
+        'lines of 1000..70000 bytes, bodies of 100..250 kB; mixed-case and source-routed addresses; queue answers '
+        'as QueueError with/without reply and as RelayError, reply texts with quotes / semicolons / back-slashes / '
+        'latin-1 / non-latin-1 / several lines / empty / long, Reply.command as str or bytes; extra extension '
+        'keywords, table change after STARTTLS, three connections to servers with different tables; ehlo_as and '
+        'credentials as callables, tls_required; WsgiValidators recording what the HTTP edge shows them. '
+        'non-trivial = a hop whose envelope has an address needing quoting / UTF-8 / null sender, or >= 2 '
         'recipients, or whose server has a non-default extension set; distinct by (transport, address class set, '
         'extension/config set, body class)')
 ASSUMPTIONS = ['LMTP: the library has no LMTP-receiving edge; the LMTP leg is judged against what the independent '
@@ -104,12 +134,35 @@ ASSUMPTIONS = ['LMTP: the library has no LMTP-receiving edge; the LMTP leg is ju
                'combined with the HELO fall-back (no AUTH without EHLO); the edge\'s auth= argument is given as bytes '
                'names (the documented str names make SASLAuth.named raise KeyError -- noted, not judged here)',
                'HTTP: connection reuse is judged on intact / un-mixed arrival only (the number of TCP connections is '
-               'not observed); the reply text is not compared, only the code and the permanent/transient class']
+               'not observed); the reply text is not compared, only the code and the permanent/transient class',
+               'source routes (@a,@b:mailbox) are the one lenient address class: the path must arrive identical or '
+               'with the route stripped (RFC 5321 lets a receiver ignore it); anything else counts as altered',
+               'client info is observed, not judged (the statement does not name it; agreements / disagreements are '
+               'counters client-info/agrees|disagrees/... in the evidence): expected client[name] is the configured ehlo_as (string, or the value its callable '
+               'returns), client[protocol] is SMTP after the HELO fall-back else ESMTP, +S when TLS was configured and '
+               'could be negotiated (implicit, or STARTTLS without HELO fall-back), +A with relay credentials; '
+               'HTTP / HTTPS for the WSGI edge; client[ip] is the loopback address of the harness',
+               'HTTP reply clause: when the request never reached the edge\'s queue (refused by the HTTP server '
+               'below the edge, or the edge application failed before it had an answer) the edge gave no SMTP code; '
+               'such a message is judged by the delivery clause only (un-scripted = refused valid hop)',
+               'reply-text / command classes are inputs only: the oracle still compares codes and the permanent / '
+               'transient class; the LMTP leg uses one-line texts only (its independent server frames one line)',
+               'a server whose table changes after STARTTLS is built with the session hook the Server calls after '
+               'the handshake (TLSHANDSHAKE2) mutating Server.extensions; extra keywords are added to the real '
+               'Server at construction like the drops; "three servers" = three sequential connections of one relay '
+               '(no idle_timeout), message k on connection k, conditional classes follow that connection\'s table',
+               'multipart / mislabelled-CTE down-conversion is left to C20 (encode_7bit); BINARYMIME / CHUNKING are not '
+               'implemented by the library and only appear as advertised keywords']
 REQUIRED_HITS = ['smtp-hop-delivered', 'http-hop-delivered', 'lmtp-hop-delivered', 'sender-compared',
                  'recipients-compared', 'content-compared', 'extensions-compared', 'reply-code-compared',
-                 'per-recipient-rejection-judged', 'reuse-one-connection', 'tls-hop', 'auth-hop', 'helo-fallback-hop']
+                 'per-recipient-rejection-judged', 'reuse-one-connection', 'tls-hop', 'auth-hop', 'helo-fallback-hop',
+                 # audit strata
+                 'many-recipients-hop', 'long-line-hop', 'big-body-hop', 'odd-header-block-hop',
+                 'queue-relay-error-judged', 'reply-text-class-judged',
+                 'extra-extensions-compared', 'post-tls-extensions-compared', 'multi-connection-extensions-compared',
+                 'http-validators-compared']
 SHARDS = {'quick': 10, 'thorough': 16}
-BUDGET = {'quick': 45, 'thorough': 800}
+BUDGET = {'quick': 55, 'thorough': 800}
 EXHAUSTIVE = {'quick': False, 'thorough': False}
 
 NRANDOM = {'quick': 3000, 'thorough': 60000}
@@ -150,8 +203,13 @@ def _server_factory(sock, handlers, *args, **kwargs):
     """Stands where slimta.edge.smtp.Server stood: builds the real Server, then removes extensions."""
     srv = RealServer(sock, handlers, *args, **kwargs)
     lab = _LAB[0]
+    handlers._vf_conn = None
     if lab is not None:
-        for name in lab.cfg.get('drop', ()):
+        k = lab.sock_conn.get(id(sock), len(lab.servers))
+        handlers._vf_conn = k
+        for name, param in lab.cfg.get('add') or ():
+            srv.extensions.add(name, param)
+        for name in list(lab.cfg.get('drop', ())) + conn_drops(lab.cfg, k):
             srv.extensions.drop(name)
         lab.servers.append(srv)
     handlers._vf_server = srv
@@ -161,6 +219,12 @@ def _server_factory(sock, handlers, *args, **kwargs):
 edge_smtp.Server = _server_factory
 
 _crashes = []
+
+
+def conn_drops(cfg, k):
+    """Extra keywords dropped by the server of connection k (audit stratum 'three servers'; message k = connection k)."""
+    cd = cfg.get('conn_drop')
+    return list(cd[k % len(cd)]) if cd else []
 
 
 def _hook_hub():
@@ -202,7 +266,7 @@ A_DOMAIN = ['x.test', 'y.test', 'sub.example.org', 'a-b.c-d.test', 'xn--bcher-kv
             'EXAMPLE.Test']
 LITERAL = ['[127.0.0.1]', '[IPv6:::1]', '[IPv6:2001:db8::1]', '[192.0.2.55]']
 ADDR_KINDS = ['plain', 'plain', 'plain', 'atext', 'quoted', 'quoted', 'quoted-qp', 'quoted-qp', 'utf8-local',
-              'utf8-domain', 'utf8-both', 'long', 'literal', 'quoted-utf8']
+              'utf8-domain', 'utf8-both', 'long', 'literal', 'quoted-utf8', 'mixed-case', 'source-route']
 
 
 def gen_address(rnd, kind):
@@ -242,13 +306,37 @@ def gen_address(rnd, kind):
             dom = '.'.join('d' * 30 for _ in range(5)) + '.test'
     elif kind == 'literal':
         loc, dom = 'user%d' % rnd.randrange(100), rnd.choice(LITERAL)
+    elif kind == 'mixed-case':
+        loc = '.'.join(''.join(rnd.choice('abcxyzABCXYZ09') for _ in range(rnd.randrange(1, 8)))
+                       for _ in range(rnd.choice([1, 1, 2]))) + rnd.choice(['', '', '+Tag', '+TAG.x'])
+        if loc == loc.lower():
+            loc = 'Q' + loc
+        dom = ''.join(c.upper() if rnd.random() < 0.4 else c for c in dom)
+    elif kind == 'source-route':
+        hops = ','.join('@' + rnd.choice(A_DOMAIN) for _ in range(rnd.choice([1, 1, 2, 3])))
+        return hops + ':' + gen_address(rnd, rnd.choice(['plain', 'plain', 'atext', 'quoted', 'mixed-case']))
     else:
         raise ValueError(kind)
     return loc + '@' + dom
 
 
+def route_of(a):
+    """-> (route, mailbox) of a path with an RFC 5321 source route ('@a,@b:mailbox'), else ('', a)."""
+    if a.startswith('@') and ':' in a:
+        r, _, mbox = a.partition(':')
+        return r + ':', mbox
+    return '', a
+
+
+def same_address(want, got):
+    """The statement's 'same address'.  A source route is the one lenient class: RFC 5321 lets a receiver strip
+    it, so the mailbox alone is accepted too (counted by the caller)."""
+    return want == got or (route_of(want)[0] != '' and got == route_of(want)[1])
+
+
 def split_address(a):
     """-> (local, domain) of a *valid* address (the local part may be a quoted string)."""
+    a = route_of(a)[1]
     if a.startswith('"'):
         i = 1
         while i < len(a):
@@ -269,6 +357,12 @@ def addr_features(a):
         return ('null',)
     loc, dom = split_address(a)
     f = set()
+    if route_of(a)[0]:
+        f.add('source-route')
+    if not loc.startswith('"') and loc != loc.lower():
+        f.add('upper-local')
+    if dom != dom.lower() and not dom.startswith('['):
+        f.add('upper-domain')
     if loc.startswith('"'):
         inner = loc[1:-1]
         f.add('quoted')
@@ -322,23 +416,23 @@ def parse_path(line):
     rest = line[m.end():]
     if rest[:1] == b'>':
         return b'', rest[1:].strip()
-    i = 0
-    if rest[:1] == b'"':
-        i = 1
-        while True:
-            c = rest[i:i + 1]
-            if c == b'':
-                return None
+    # the path ends at the first '>' outside a quoted string (a quoted local part may follow a source route)
+    i, quoted = 0, False
+    while True:
+        c = rest[i:i + 1]
+        if c == b'':
+            return None
+        if quoted:
             if c == b'\\':
                 i += 2
                 continue
-            i += 1
             if c == b'"':
-                break
-    j = rest.find(b'>', i)
-    if j < 0:
-        return None
-    return rest[:j], rest[j + 1:].strip()
+                quoted = False
+        elif c == b'"':
+            quoted = True
+        elif c == b'>':
+            return rest[:i], rest[i + 1:].strip()
+        i += 1
 
 
 # ------------------------------------------------------------------------------------------ message generator
@@ -364,8 +458,66 @@ def gen_line(rnd, maxlen, ascii_only):
     return out.strip(b' \t') or b'x'
 
 
-def gen_headers(rnd, marker, ascii_only=False, mime=False):
+HEADER_KINDS = ['long', 'many', 'header-only', 'nocolon', 'barelf', 'wsline']
+
+
+def gen_odd_headers(rnd, marker, hkind):
+    """Audit strata: header blocks the basic generator never makes.  -> complete data up to (and for most kinds
+    including) the blank line; the marker is always the first field (the LMTP server finds messages by it)."""
+    first = b'X-Verif-Msg: ' + marker.encode('ascii') + b'\r\n'
+    if hkind == 'long':
+        # unfolded fields far beyond 78 / 998 bytes, and one field folded into very many lines
+        n = rnd.choice([79, 200, 997, 998, 999, 1200, 5000])
+        out = first + b'Subject: ' + gen_line(rnd, n, rnd.random() < 0.7) + b'\r\n'
+        if rnd.random() < 0.5:
+            out += b'References:' + b''.join(b'\r\n <%d@x.test>' % i for i in range(rnd.choice([3, 40, 200]))) + b'\r\n'
+        if rnd.random() < 0.5:
+            out += b'X-NoSpace:' + b'y' * rnd.choice([100, 1000, 3000]) + b'\r\n'
+        return out + b'\r\n'
+    if hkind == 'many':
+        return first + b''.join(b'Received: from h%d.test by x.test; id %d\r\n' % (i, i)
+                                for i in range(rnd.choice([60, 150, 300]))) + b'\r\n'
+    if hkind == 'header-only':
+        # no blank line at all; with and without a final line end
+        return first + b'Subject: only headers' + rnd.choice([b'\r\n', b'', b'\r\n folded\r\n'])
+    if hkind == 'nocolon':
+        return first + b'Subject: x\r\n' + rnd.choice([b'this line has no colon', b'>From somebody', b'=junk', b'\xff\xfe']) + \
+            b'\r\nX-After: 1\r\n\r\n'
+    if hkind == 'barelf':
+        return first + rnd.choice([b'Subject: x\nX-B: y\n\n', b'Subject: x\n folded\nX-B: y\r\n\n', b'Subject: x\r\nX-B: y\n\r\n'])
+    if hkind == 'wsline':
+        # a continuation line that holds white space only (RFC 5322 4.2 obs-fold), inside and at the end of the block
+        return first + rnd.choice([b'Subject: x\r\n \r\nX-After: 1\r\n\r\n', b'Subject: x\r\n\t\r\n\r\n',
+                                   b'Subject: x\r\n  \r\n y\r\nX-After: 1\r\n\r\n'])
+    raise ValueError(hkind)
+
+
+def header_class(data):
+    """Shape classes of the header block of message data as handed to Envelope.parse (audit strata)."""
+    block, sep, _ = data.partition(b'\r\n\r\n')
+    f = set()
+    lines = re.split(br'\r\n|\n', block)
+    if any(len(ln) > 998 for ln in lines):
+        f.add('line>998')
+    elif any(len(ln) > 78 for ln in lines):
+        f.add('line>78')
+    if len(lines) > 50:
+        f.add('many-lines')
+    if not re.search(br'\r?\n\r?\n', data):
+        f.add('no-blank-line')
+    if re.search(br'(?<!\r)\n', block):
+        f.add('bare-lf')
+    if any(ln.strip(b' \t') == b'' and ln != b'' for ln in lines):
+        f.add('ws-only-line')
+    if any(ln and ln[:1] not in b' \t' and b':' not in ln for ln in lines):
+        f.add('no-colon-line')
+    return tuple(sorted(f))
+
+
+def gen_headers(rnd, marker, ascii_only=False, mime=False, hkind=None):
     """Well-formed header block (CRLF, every line <= 78 bytes), first field is the marker."""
+    if hkind:
+        return gen_odd_headers(rnd, marker, hkind)
     out = [b'X-Verif-Msg: ' + marker.encode('ascii')]
     if mime:
         out += [b'MIME-Version: 1.0', b'Content-Type: text/plain; charset=utf-8']
@@ -383,7 +535,8 @@ def gen_headers(rnd, marker, ascii_only=False, mime=False):
 
 
 BODY_KINDS = ['plain', 'plain', 'dots', 'barelf', 'barecr', 'empty', 'nofinal', 'nul', '8bit', 'utf8text', 'mixed',
-              'mixed', 'big']
+              'mixed', 'big', 'longline']
+LONG_LINE = [999, 1000, 1001, 2000, 4095, 4096, 4097, 8191, 8192, 8193, 12288, 20000, 70000]
 FIXED_BODIES = {
     'plain': [b'hello\r\n', b'line one\r\nline two\r\n'],
     'dots': [b'.\r\n', b'..\r\n.\r\n', b'.dot line\r\n..two\r\n. \r\nx\r\n', b'x\r\n.\r\ny\r\n', b'\r\n.\r\n',
@@ -412,6 +565,26 @@ def gen_body(rnd, kind):
                         for _ in range(rnd.randrange(1, 6)))
     if kind == 'big':
         return b''.join(rnd.choice([b'x' * 60, b'.y' * 30, b'z']) + b'\r\n' for _ in range(rnd.randrange(8, 40)))
+    if kind == 'longline':
+        # lines far beyond 998 bytes and beyond one / two / many 4096-byte reads, dot-leading or not
+        out = b''
+        for _ in range(rnd.choice([1, 1, 2, 3])):
+            n = rnd.choice(LONG_LINE) + rnd.choice([0, 0, -1, 1, 7])
+            ln = rnd.choice([b'', b'', b'.', b'..', b'. ']) + rnd.choice([b'x', b'ab ', b'.', b'long line \t'])
+            ln = (ln * (n // len(ln) + 1))[:n]
+            out += ln + rnd.choice([b'\r\n', b'\r\n', b'\r\n', b'\n', b'\r\n.\r\n', b'\r\nshort\r\n'])
+        return out if rnd.random() < 0.8 else out.rstrip(b'\r\n') + b'!'
+    if kind == 'huge':
+        # 100..250 kB: the message crosses very many reads / socket buffers
+        unit = [b'.' + b'z' * 75 + b'\r\n', b'x' * 76 + b'\r\n', b'..\r\n', b'\r\n', b'y' * 997 + b'\r\n',
+                b'.' * 4096 + b'\r\n', b'q' * 5000 + b'\n']
+        out, target = [], rnd.choice([100000, 150000, 250000])
+        size = 0
+        while size < target:
+            u = rnd.choice(unit) * rnd.choice([1, 5, 50])
+            out.append(u)
+            size += len(u)
+        return b''.join(out) + rnd.choice([b'', b'', b'end without newline'])
     n = rnd.randrange(1, rnd.choice([4, 10, 30, 80]) + 1)
     if kind == 'plain':
         return b''.join(rnd.choice([b'word', b' ', b'x', b'line']) for _ in range(n)) + b'\r\n'
@@ -446,6 +619,10 @@ def body_class(body):
         f.add('nul')
     if any(c > 127 for c in body):
         f.add('8bit')
+    if len(body) >= 100000:
+        f.add('>=100kB')
+    if body and max(len(ln) for ln in body.split(b'\n')) > 998:
+        f.add('line>998')
     return tuple(sorted(f)) or ('plain',)
 
 
@@ -467,9 +644,22 @@ def split_fields(block):
 
 def smtp_cfg(**kw):
     cfg = {'drop': [], 'size': None, 'tls': False, 'auth': None, 'mech': None, 'helo': False, 'reuse': False,
-           'concurrent': False, 'encoder': None}
+           'concurrent': False, 'encoder': None,
+           # audit strata: extra keywords [[name, param|None]], table changes after STARTTLS {'add':..,'drop':..},
+           # per-connection extra drops (3 messages, one connection each), ehlo_as / credentials as callables,
+           # tls_required on the relay
+           'add': [], 'post_tls': None, 'conn_drop': None, 'ehlo_fn': False, 'cred_fn': False, 'tls_required': False}
     cfg.update(kw)
     return cfg
+
+
+EXTRA_EXTS = [['DSN', None], ['X-EXPERIMENTAL', 'alpha beta=2'], ['CHUNKING', None], ['DELIVERBY', '0'],
+              ['X-A-B-C', None], ['VRFY', None], ['LIMITS', 'RCPTMAX=500 MAILMAX=10'], ['X1', '1']]
+EHLO_NAME, EHLO_FN_NAME = 'relay.test', 'relay-from-callable.test'
+
+
+def ehlo_name(cfg):
+    return EHLO_FN_NAME if cfg.get('ehlo_fn') else EHLO_NAME
 
 
 SMTP_GRID = [
@@ -495,6 +685,21 @@ SMTP_GRID = [
     ('reuse-tls-size', smtp_cfg(reuse=True, tls=True, size=600)),
     ('no-8bitmime-qp', smtp_cfg(drop=['8BITMIME'], encoder='quopri')),
     ('no-8bitmime-b64', smtp_cfg(drop=['8BITMIME'], encoder='base64')),
+    # ---- audit strata
+    ('extra-exts', smtp_cfg(add=EXTRA_EXTS[:5], ehlo_fn=True)),
+    ('extra-exts-reuse-nopipe', smtp_cfg(add=EXTRA_EXTS[3:], drop=['PIPELINING'], reuse=True)),
+    ('starttls-required-credfn', smtp_cfg(tls=True, tls_required=True, auth=['PLAIN'], cred_fn=True, ehlo_fn=True)),
+    # the table changes after STARTTLS: a clear-only keyword goes, AUTH appears, SIZE changes its parameter
+    ('starttls-table-changes', smtp_cfg(tls=True, size=2000, add=[['X-CLEAR-ONLY', 'yes'], ['DSN', None]],
+                                        post_tls={'drop': ['X-CLEAR-ONLY', 'ENHANCEDSTATUSCODES'],
+                                                  'add': [['SIZE', '5000000'], ['X-SECURE', None]]})),
+    ('starttls-table-changes-reuse', smtp_cfg(tls=True, reuse=True, add=[['X-CLEAR-ONLY', None]],
+                                              post_tls={'drop': ['X-CLEAR-ONLY', 'PIPELINING'], 'add': []})),
+    # three connections of one relay, every server with its own table
+    ('three-servers', smtp_cfg(conn_drop=[[], ['SMTPUTF8', 'PIPELINING'], ['8BITMIME', 'ENHANCEDSTATUSCODES']],
+                               add=[['DSN', None]])),
+    ('three-servers-b', smtp_cfg(conn_drop=[['SMTPUTF8', '8BITMIME', 'DSN'], [], ['PIPELINING']], add=[['DSN', None]],
+                                 ehlo_fn=True)),
 ]
 LMTP_GRID = [
     ('lmtp-default', {'exts': ['8BITMIME', 'SMTPUTF8', 'ENHANCEDSTATUSCODES'], 'pipelining': True, 'tls': False,
@@ -508,12 +713,18 @@ LMTP_GRID = [
                        'reuse': False}),
     ('lmtp-reuse', {'exts': ['8BITMIME', 'SMTPUTF8'], 'pipelining': True, 'tls': False, 'auth': False,
                     'reuse': True}),
+    # audit: keywords in lower case, hyphenated, multi-word / numeric parameters; LHLO name from a callable
+    ('lmtp-odd-exts', {'exts': ['8bitmime', 'SMTPUTF8', 'dsn', 'X-EXPERIMENTAL alpha beta=2', 'DELIVERBY 0',
+                                'X-A-B-C', 'LIMITS RCPTMAX=500'], 'pipelining': True, 'tls': False, 'auth': False,
+                       'reuse': False, 'ehlo_fn': True}),
 ]
 HTTP_GRID = [
     ('http', {'reuse': False, 'https': False, 'concurrent': False}),
     ('http-reuse', {'reuse': True, 'https': False, 'concurrent': False}),
     ('http-reuse-concurrent', {'reuse': True, 'https': False, 'concurrent': True}),
     ('https', {'reuse': False, 'https': True, 'concurrent': False}),
+    # audit: the edge runs a recording WsgiValidators class; X-Ehlo from a callable
+    ('http-validators', {'reuse': True, 'https': False, 'concurrent': False, 'validators': True, 'ehlo_fn': True}),
 ]
 # designed only (3 cases each): the edge built and started through its documented listener= argument
 HTTP_LISTENER_GRID = [
@@ -532,13 +743,35 @@ GRID_ADDRS = [
     ('a@x.test', ['r1@x.test', 'r2@x.test', 'r1@x.test', 'r3@y.test', 'r2@x.test']),
     ("o'brien+tag/x=y@x.test", ['{curly}|pipe~@x.test', 'user@[127.0.0.1]', 'u@[IPv6:::1]']),
     ('l' * 64 + '@x.test', ['"' + 'q >' * 20 + 'ab"@' + '.'.join(['d' * 30] * 5) + '.test']),
+    # audit: case, plus-addressing in upper case, a recipient without domain, source routes
+    ('MiXed.Case+Tag@Example.TEST', ['UPPER@X.TEST', 'upper@x.test', 'Upper@X.test', 'Postmaster']),
+    ('@a.test,@b.test:user@x.test', ['@relay.test:rcpt@x.test', 'r@x.test', '@a.test:"q:r,@s"@y.test']),
 ]
 
 
-def build_msg(rnd, marker, sender, rcpts, bkind, ascii_headers=False, mime=False):
+def build_msg(rnd, marker, sender, rcpts, bkind, ascii_headers=False, mime=False, hkind=None):
     body = gen_body(rnd, bkind)
+    if hkind == 'header-only':
+        body = b''
     return {'marker': marker, 'sender': sender, 'rcpts': list(rcpts),
-            'data': gen_headers(rnd, marker, ascii_headers, mime) + body, 'bkind': bkind, 'script': None}
+            'data': gen_headers(rnd, marker, ascii_headers, mime, hkind) + body, 'bkind': bkind, 'script': None}
+
+
+def many_recipients(rnd, n, allow_utf8=False):
+    """Audit stratum: n recipients, mostly plain, some needing quoting, a few repeated."""
+    out = []
+    for i in range(n):
+        r = rnd.random()
+        if r < 0.8:
+            out.append('rcpt%d@%s' % (i, rnd.choice(A_DOMAIN)))
+        elif r < 0.9:
+            out.append('"list member %d"@x.test' % i)
+        elif r < 0.95 and out:
+            out.append(rnd.choice(out))
+        else:
+            out.append(gen_address(rnd, rnd.choice(['atext', 'quoted-qp', 'long', 'mixed-case'] +
+                                                   (['utf8-local'] if allow_utf8 else []))))
+    return out
 
 
 def random_envelope(rnd, allow_utf8=True):
@@ -547,16 +780,41 @@ def random_envelope(rnd, allow_utf8=True):
     rcpts = [gen_address(rnd, rnd.choice(kinds)) for _ in range(rnd.choice([1, 1, 2, 2, 3, 4, 5]))]
     if len(rcpts) >= 2 and rnd.random() < 0.3:
         rcpts[rnd.randrange(len(rcpts))] = rnd.choice(rcpts)          # duplicate
+    if rnd.random() < 0.012:
+        rcpts = many_recipients(rnd, rnd.choice([60, 90, 101, 130, 200]), allow_utf8)
     return sender, rcpts
+
+
+# reply-text / Reply.command classes of a scripted answer (audit stratum).  The oracle compares codes only; the
+# classes are inputs: what the library's own relays and queues put into a Reply must not change the code that
+# crosses the hop.
+REPLY_TEXTS = {'plain': 'scripted answer', 'quotes': 'user "bob" unknown', 'semicolon': 'no; message="x"; command="y"',
+               'backslash': 'path C:\\mail\\', 'latin1': 'bo\u00eete pleine', 'utf8': '\u30e1\u30fc\u30eb full',
+               'multiline': 'first line\r\nsecond line\r\nthird', 'empty': '', 'long': 'x' * 900}
+REPLY_TEXT_KINDS = ['plain', 'plain', 'quotes', 'semicolon', 'backslash', 'latin1', 'utf8', 'multiline', 'multiline',
+                    'empty', 'long']
+REPLY_CMD_KINDS = [None, None, 'str', 'bytes', 'bytes']
+
+
+def reply_classes(rnd, transport):
+    """-> {'text': class, 'cmd': None|'str'|'bytes'}; the LMTP leg's independent server frames one-line texts only."""
+    text = rnd.choice(REPLY_TEXT_KINDS)
+    if transport == 'lmtp' and text in ('multiline', 'empty'):
+        text = 'quotes'
+    return {'text': text, 'cmd': rnd.choice(REPLY_CMD_KINDS)}
 
 
 def add_script(rnd, transport, cfg, msg):
     """Scripted edge behaviour for one message (only for messages the hop must otherwise deliver)."""
     r = rnd.random()
     n = len(msg['rcpts'])
+    msg['reply'] = reply_classes(rnd, transport)
     if transport == 'http':
         if r < 0.25:
-            msg['script'] = ['qerr', rnd.choice(['450', '451', '550', '554', '421', '535', '552'])]
+            msg['script'] = [rnd.choice(['qerr', 'qerr', 'rerr']),
+                             rnd.choice(['450', '451', '550', '554', '421', '535', '552'])]
+        elif r < 0.28:
+            msg['script'] = ['qerr-noreply', '451']
         return
     if transport == 'lmtp':
         if r < 0.15:
@@ -565,7 +823,9 @@ def add_script(rnd, transport, cfg, msg):
             msg['script'] = ['rcpt', [rnd.randrange(n)], rnd.choice(['550', '450'])]
         return
     if r < 0.12:
-        msg['script'] = ['qerr', rnd.choice(['450', '451', '550', '554', '452', '552'])]
+        msg['script'] = [rnd.choice(['qerr', 'qerr', 'rerr']), rnd.choice(['450', '451', '550', '554', '452', '552'])]
+    elif r < 0.135:
+        msg['script'] = ['qerr-noreply', '451']
     elif r < 0.24 and n >= 2:
         i = rnd.randrange(n)
         msg['script'] = ['rcpt', [k for k in range(n) if msg['rcpts'][k] == msg['rcpts'][i]],
@@ -580,33 +840,39 @@ def add_script(rnd, transport, cfg, msg):
         msg['script'] = ['data', rnd.choice(['554', '451'])]
 
 
-def advertised(transport, cfg):
-    """Extension names in effect for the transaction (SMTP edge config / LMTP downstream exts; HELO = none)."""
+def advertised(transport, cfg, k=0):
+    """Extension names in effect for the transaction of message k (SMTP edge config / LMTP downstream exts; HELO =
+    none).  With STARTTLS the table in effect is the one after the handshake."""
     if transport == 'lmtp':
-        return set(x.split()[0] for x in cfg['exts'])
-    return set() if cfg['helo'] else set(DEFAULT_EXTS) - set(cfg['drop'])
+        return set(x.split()[0].upper() for x in cfg['exts'])
+    if cfg['helo']:
+        return set()
+    adv = set(DEFAULT_EXTS) - set(cfg['drop']) - set(conn_drops(cfg, k))
+    if cfg.get('tls') and cfg['tls'] != 'immediate' and cfg.get('post_tls'):
+        adv -= set(cfg['post_tls']['drop'])
+    return adv
 
 
-def withheld_rcpts(transport, cfg, msg):
+def withheld_rcpts(transport, cfg, msg, k=0):
     """Recipients the relay must keep back: non-ASCII addresses while SMTPUTF8 is not in effect.  They must not
     reach the server and must not be reported delivered (the relay fails them itself, permanently)."""
-    if transport == 'http' or 'SMTPUTF8' in advertised(transport, cfg):
+    if transport == 'http' or 'SMTPUTF8' in advertised(transport, cfg, k):
         return []
     return [r for r in dict.fromkeys(msg['rcpts']) if not is_ascii(r)]
 
 
-def may_refuse(transport, cfg, msg):
+def may_refuse(transport, cfg, msg, k=0):
     """Is this message in a conditional class for this configuration?  (utf8-without-SMTPUTF8, 8bit-without-8BITMIME)"""
     if transport == 'http':
         return False
-    adv = advertised(transport, cfg)
+    adv = advertised(transport, cfg, k)
     utf8 = not all(is_ascii(a) for a in [msg['sender']] + msg['rcpts'])
     eight = any(c > 127 for c in msg['data'])
     return (utf8 and 'SMTPUTF8' not in adv) or (eight and '8BITMIME' not in adv)
 
 
-def make_case(rnd, n, transport, label, cfg, envelopes=None, bkinds=None, scripted=True):
-    nmsg = 3 if cfg.get('reuse') else 1
+def make_case(rnd, n, transport, label, cfg, envelopes=None, bkinds=None, scripted=True, hkinds=None):
+    nmsg = 3 if cfg.get('reuse') or cfg.get('conn_drop') else 1
     msgs = []
     conv = transport == 'smtp' and cfg.get('encoder')
     for k in range(nmsg):
@@ -619,12 +885,21 @@ def make_case(rnd, n, transport, label, cfg, envelopes=None, bkinds=None, script
         elif conv:
             bk = rnd.choice(['utf8text', 'utf8text', 'plain', 'dots'])
         else:
-            bk = rnd.choice(BODY_KINDS)
-        m = build_msg(rnd, 'c%d-m%d' % (n, k), sender, rcpts, bk, ascii_headers=bool(conv), mime=bool(conv))
-        if scripted and not cfg.get('concurrent') and not may_refuse(transport, cfg, m):
+            bk = rnd.choice(BODY_KINDS) if rnd.random() > 0.015 else 'huge'
+        if hkinds:
+            hk = hkinds[k % len(hkinds)]
+        else:
+            hk = rnd.choice(HEADER_KINDS) if not conv and not envelopes and rnd.random() < 0.1 else None
+        m = build_msg(rnd, 'c%d-m%d' % (n, k), sender, rcpts, bk, ascii_headers=bool(conv), mime=bool(conv), hkind=hk)
+        if scripted and not cfg.get('concurrent') and not may_refuse(transport, cfg, m, k):
             add_script(rnd, transport, cfg, m)
         msgs.append(m)
     return {'n': n, 'transport': transport, 'label': label, 'cfg': cfg, 'msgs': msgs}
+
+
+def force_script(rnd, transport, cfg, msg, script, reply):
+    msg['script'], msg['reply'] = script, reply
+    return msg
 
 
 def all_cases(tier, seed):
@@ -667,6 +942,65 @@ def all_cases(tier, seed):
                             break
                 yield c
                 n += 1
+    # ---------------------------------------------------------------- audit strata (designed)
+    pick = lambda grid, names: [(l, c) for l, c in grid if l in names]          # noqa: E731
+    plain_env = [('s@x.test', ['r1@x.test', 'r2@y.test'])]
+    # many recipients (around the 100 mark and far beyond), every transport
+    for transport, grid in (('smtp', pick(SMTP_GRID, ('default', 'no-pipelining', 'helo', 'starttls', 'no-smtputf8',
+                                                       'reuse'))),
+                            ('lmtp', pick(LMTP_GRID, ('lmtp-default', 'lmtp-nopipe'))),
+                            ('http', pick(HTTP_GRID, ('http', 'https', 'http-reuse')))):
+        for label, cfg in grid:
+            for nr in (60, 101, 250):
+                rnd = random.Random('c06-many-%d' % n)
+                envs = [('list@x.test', many_recipients(rnd, nr, allow_utf8=True)) for _ in range(3)]
+                yield make_case(rnd, n, transport, label, cfg, envs, ['plain'], scripted=False)
+                n += 1
+    # huge bodies; odd / long header blocks
+    for transport, grid in (('smtp', pick(SMTP_GRID, ('default', 'no-pipelining', 'starttls', 'size-big', 'helo'))),
+                            ('lmtp', pick(LMTP_GRID, ('lmtp-default', 'lmtp-nopipe'))),
+                            ('http', pick(HTTP_GRID, ('http', 'https')))):
+        for label, cfg in grid:
+            for j in range(2):
+                rnd = random.Random('c06-huge-%d' % n)
+                yield make_case(rnd, n, transport, label, cfg, plain_env, ['huge'], scripted=False)
+                n += 1
+            for hk in HEADER_KINDS:
+                for j in range(2):
+                    rnd = random.Random('c06-hdr-%d' % n)
+                    yield make_case(rnd, n, transport, label, cfg, plain_env, ['plain', 'dots', 'empty'],
+                                    scripted=False, hkinds=[hk])
+                    n += 1
+    # reply classes: every queue-level answer kind x every reply-text class x Reply.command class
+    for transport, grid in (('smtp', pick(SMTP_GRID, ('default', 'no-pipelining', 'bare'))),
+                            ('http', pick(HTTP_GRID, ('http', 'https')))):
+        for label, cfg in grid:
+            for kind in ('qerr', 'rerr'):
+                for text in sorted(REPLY_TEXTS):
+                    for cmd in (None, 'str', 'bytes'):
+                        rnd = random.Random('c06-reply-%d' % n)
+                        c = make_case(rnd, n, transport, label, cfg, plain_env, ['plain'], scripted=False)
+                        code = rnd.choice(['550', '554', '552', '450', '451'])
+                        force_script(rnd, transport, cfg, c['msgs'][0], [kind, code], {'text': text, 'cmd': cmd})
+                        yield c
+                        n += 1
+            rnd = random.Random('c06-reply-%d' % n)
+            c = make_case(rnd, n, transport, label, cfg, plain_env, ['plain'], scripted=False)
+            force_script(rnd, transport, cfg, c['msgs'][0], ['qerr-noreply', '451'], {'text': 'plain', 'cmd': None})
+            yield c
+            n += 1
+    # validator-level answers with every reply-text class (SMTP edge, LMTP server)
+    for label, cfg in pick(SMTP_GRID, ('default', 'no-pipelining', 'reuse')):
+        for text in sorted(REPLY_TEXTS):
+            for script in (['mail', '550'], ['rcpt', [1], '550'], ['rcpt', [0, 1, 2], '450'], ['data', '554'],
+                           ['have_data', '554']):
+                rnd = random.Random('c06-vreply-%d' % n)
+                c = make_case(rnd, n, 'smtp', label, cfg, [('s@x.test', ['r1@x.test', '"q r"@y.test', 'r3@x.test'])],
+                              ['plain'], scripted=False)
+                for m in c['msgs']:
+                    force_script(rnd, 'smtp', cfg, m, list(script), {'text': text, 'cmd': None})
+                yield c
+                n += 1
     # seeded random
     for i in range(NRANDOM[tier]):
         rnd = random.Random('c06-%d-%d' % (seed, i))
@@ -678,15 +1012,27 @@ def all_cases(tier, seed):
                 cfg = smtp_cfg(drop=sorted(x for x in DEFAULT_EXTS if rnd.random() < 0.3),
                                size=rnd.choice([None, None, 600, 5000, 1000000]),
                                tls=rnd.choice([False, False, False, False, False, True, True, 'immediate']),
-                               helo=rnd.random() < 0.08, reuse=rnd.random() < 0.3)
+                               helo=rnd.random() < 0.08, reuse=rnd.random() < 0.3,
+                               add=[list(x) for x in EXTRA_EXTS if rnd.random() < 0.15],
+                               ehlo_fn=rnd.random() < 0.2)
+                if cfg['tls'] is True and rnd.random() < 0.4:
+                    cfg['post_tls'] = {'drop': sorted(set(x for x in list(DEFAULT_EXTS) + [a[0] for a in cfg['add']]
+                                                          if rnd.random() < 0.3)),
+                                       'add': [list(x) for x in EXTRA_EXTS[5:] if rnd.random() < 0.3]}
+                if not cfg['reuse'] and not cfg['helo'] and rnd.random() < 0.15:
+                    cfg['conn_drop'] = [sorted(x for x in DEFAULT_EXTS if rnd.random() < 0.35) for _ in range(3)]
                 # PLAIN/LOGIN are refused 504 by the library's server on a clear channel (by design); a relay
                 # with credentials cannot use a server that offers no AUTH (HELO): neither is a hop failure
                 if not cfg['helo']:
                     cfg['auth'] = rnd.choice([None, None, ['PLAIN'], ['LOGIN'], ['LOGIN', 'PLAIN'], ['CRAM-MD5']]
                                              if cfg['tls'] else [None, None, None, ['CRAM-MD5']])
                 cfg['concurrent'] = cfg['reuse'] and rnd.random() < 0.4
-                if '8BITMIME' in cfg['drop'] or cfg['helo']:
+                if ('8BITMIME' in cfg['drop'] or cfg['helo']) and not cfg['conn_drop']:
                     cfg['encoder'] = rnd.choice([None, None, 'quopri', 'base64'])
+                if cfg['auth'] and rnd.random() < 0.3:
+                    cfg['cred_fn'] = True
+                if cfg['tls'] is True and not cfg['helo'] and rnd.random() < 0.3:
+                    cfg['tls_required'] = True
                 label = 'random'
             yield make_case(rnd, n, 'smtp', label, cfg)
         elif r < 0.82:
@@ -721,12 +1067,36 @@ class CaptureQueue(object):
         script = self.lab.script
         rec = {'env': envelope, 'msg_i': self.lab.msg_i, 'failed': None}
         self.got.append(rec)
-        if script and script[0] == 'qerr':
-            err = QueueError('scripted queue failure')
-            err.reply = Reply(script[1], '%s.3.0 scripted queue answer' % script[1][0])
+        if script and script[0] in ('qerr', 'rerr', 'qerr-noreply'):
             rec['failed'] = script[1]
+            if script[0] == 'qerr-noreply':
+                return [(envelope, QueueError('scripted queue failure without a reply'))]
+            reply = scripted_reply(script[1], '3.0', self.lab.reply)
+            if script[0] == 'qerr':
+                err = QueueError('scripted queue failure')
+                err.reply = reply
+            else:
+                # what ProxyQueue hands back when its relay fails: the RelayError itself
+                err = SmtpRelayError.factory(reply)
             return [(envelope, err)]
         return [(envelope, 'id-%d' % len(self.got))]
+
+
+def scripted_reply(code, esc, classes):
+    """The Reply a scripted edge component answers with: text and command by class (audit stratum)."""
+    classes = classes or {}
+    text = REPLY_TEXTS[classes.get('text') or 'plain']
+    cmd = {None: None, 'str': 'RCPT', 'bytes': b'RCPT'}[classes.get('cmd')]
+    msg = ('%s.%s %s' % (code[0], esc, text)) if text else ''
+    return Reply(code, msg, command=cmd) if cmd is not None else Reply(code, msg)
+
+
+def scripted_text(code, esc, classes, default):
+    classes = classes or {}
+    if not classes.get('text') or classes['text'] == 'plain':
+        return '%s.%s %s' % (code[0], esc, default)
+    text = REPLY_TEXTS[classes['text']]
+    return ('%s.%s %s' % (code[0], esc, text)) if text else ''
 
 
 def make_session_class(lab):
@@ -736,8 +1106,19 @@ def make_session_class(lab):
 
         def EHLO(self, reply, ehlo_as):
             SmtpSession.EHLO(self, reply, ehlo_as)
-            lab.adverts.append(ext_snapshot(self._vf_server.extensions) if reply.code == '250' else None)
+            lab.adverts.append((self._vf_conn, ext_snapshot(self._vf_server.extensions) if reply.code == '250' else None))
             lab.ehlo_as.append(ehlo_as)
+
+        def TLSHANDSHAKE2(self, ssl_socket):
+            SmtpSession.TLSHANDSHAKE2(self, ssl_socket)
+            # audit stratum: a server whose table changes once the channel is encrypted (documented hook point:
+            # the handlers object is called after the handshake; Server.extensions is its public table)
+            pt = lab.cfg.get('post_tls')
+            if pt and lab.cfg['tls'] is True:
+                for name in pt['drop']:
+                    self._vf_server.extensions.drop(name)
+                for name, param in pt['add']:
+                    self._vf_server.extensions.add(name, param)
 
         def HELO(self, reply, helo_as):
             SmtpSession.HELO(self, reply, helo_as)
@@ -746,6 +1127,7 @@ def make_session_class(lab):
         def MAIL(self, reply, address, params):
             SmtpSession.MAIL(self, reply, address, params)
             self._rec('MAIL', reply, address, sorted(params))
+            lab.mail_params.append(sorted(params))
 
         def RCPT(self, reply, address, params):
             SmtpSession.RCPT(self, reply, address, params)
@@ -779,23 +1161,23 @@ def make_validator_class(lab):
             lab.rcpt_i = 0
             s = lab.script
             if s and s[0] == 'mail':
-                reply.code, reply.message = s[1], '%s.1.8 scripted sender answer' % s[1][0]
+                reply.code, reply.message = s[1], scripted_text(s[1], '1.8', lab.reply, 'scripted sender answer')
 
         def handle_rcpt(self, reply, rcpt, params):
             # decided by address value (an index would shift when the server refuses a RCPT below the session)
             s = lab.script
             if s and s[0] == 'rcpt' and rcpt in lab.reject:
-                reply.code, reply.message = s[2], '%s.1.1 scripted recipient answer' % s[2][0]
+                reply.code, reply.message = s[2], scripted_text(s[2], '1.1', lab.reply, 'scripted recipient answer')
 
         def handle_data(self, reply):
             s = lab.script
             if s and s[0] == 'data':
-                reply.code, reply.message = s[1], '%s.5.0 scripted DATA answer' % s[1][0]
+                reply.code, reply.message = s[1], scripted_text(s[1], '5.0', lab.reply, 'scripted DATA answer')
 
         def handle_have_data(self, reply, data):
             s = lab.script
             if s and s[0] == 'have_data':
-                reply.code, reply.message = s[1], '%s.6.0 scripted content answer' % s[1][0]
+                reply.code, reply.message = s[1], scripted_text(s[1], '6.0', lab.reply, 'scripted content answer')
     return RecValidators
 
 
@@ -805,7 +1187,11 @@ class Lab(object):
     def __init__(self, cfg):
         self.cfg = cfg
         self.script = None
+        self.reply = None      # reply-text / command classes of the scripted answer
         self.reject = ()       # recipient addresses a 'rcpt' script rejects
+        self.sock_conn = {}    # id(server-side socket) / id(client-side socket) -> connection number
+        self.mail_params = []  # MAIL parameter names the edge saw (observed only)
+        self.wsgi_seen = []    # (ehlo, sender, [recipients]) as the HTTP edge's validators saw them
         self.msg_i = 0
         self.rcpt_i = 0
         self.records = []      # (msg_i, stage, code, ...)  edge side, per command callback
@@ -829,7 +1215,7 @@ def make_client_class(lab, base):
                 return base._ehlo(self)
             finally:
                 if self.client is not None:
-                    lab.views.append(dict(self.client.extensions.extensions))
+                    lab.views.append((lab.sock_conn.get(id(self.socket)), dict(self.client.extensions.extensions)))
     return RecClient
 
 
@@ -855,12 +1241,16 @@ class SmtpLab(Lab):
                              session_class=make_session_class(self), command_timeout=15, data_timeout=15, **kw)
         rk = {'socket_creator': self.creator, 'ehlo_as': 'relay.test', 'connect_timeout': 15, 'command_timeout': 15,
               'data_timeout': 15, 'binary_encoder': encoder_of(cfg['encoder'])}
+        if cfg.get('ehlo_fn'):
+            rk['ehlo_as'] = lambda address: EHLO_FN_NAME         # documented: called with the destination address
         if cfg['reuse']:
             rk['idle_timeout'] = 5.0
         if cfg['tls'] == 'immediate':
             rk['tls_immediately'] = True
+        if cfg.get('tls_required'):
+            rk['tls_required'] = True
         if cfg['auth']:
-            rk['credentials'] = (USER, SECRET)
+            rk['credentials'] = (lambda: (USER, SECRET)) if cfg.get('cred_fn') else (USER, SECRET)
             if cfg['mech']:
                 rk['auth_mechanism'] = cfg['mech'].encode('ascii')
         self.relay = StaticSmtpRelay('edge.test', 25, pool_size=1, context=client_ctx(),
@@ -869,16 +1259,22 @@ class SmtpLab(Lab):
 
     def creator(self, address):
         a, b = gsocket.socketpair()
+        self.sock_conn[id(a)] = self.sock_conn[id(b)] = self.conns
         self.conns += 1
         self.greenlets.append(gevent.spawn(self.edge.handle, b, ('127.0.0.1', 1234)))
         return a
 
-    def expected_adverts(self):
-        """The configured advertisement per EHLO of one connection (harness cross-check)."""
+    def expected_adverts(self, k=0):
+        """The configured advertisement per EHLO of connection k (harness cross-check)."""
         cfg = self.cfg
         if cfg['helo']:
             return [None]
-        base = dict((k, None) for k in DEFAULT_EXTS if k not in cfg['drop'])
+        gone = set(cfg['drop']) | set(conn_drops(cfg, k))
+        base = dict((x, None) for x in DEFAULT_EXTS)
+        for name, param in cfg.get('add') or ():
+            base[name.upper()] = param
+        for name in gone:
+            base.pop(name, None)
         if cfg['size']:
             base['SIZE'] = str(cfg['size'])
         if cfg['auth']:
@@ -886,7 +1282,14 @@ class SmtpLab(Lab):
         if cfg['tls'] and cfg['tls'] != 'immediate':
             first = dict(base)
             first['STARTTLS'] = None
-            return [first, base]
+            second = dict(base)
+            pt = cfg.get('post_tls')
+            if pt:
+                for name in pt['drop']:
+                    second.pop(name, None)
+                for name, param in pt['add']:
+                    second[name.upper()] = param
+            return [first, second]
         return [base]
 
     def close(self):
@@ -911,6 +1314,8 @@ class LmtpLab(Lab):
                              tls_context=server_ctx() if cfg['tls'] else None, auth=cfg['auth'])
         rk = {'socket_creator': self.creator, 'ehlo_as': 'relay.test', 'connect_timeout': 15, 'command_timeout': 15,
               'data_timeout': 15}
+        if cfg.get('ehlo_fn'):
+            rk['ehlo_as'] = lambda address: EHLO_FN_NAME
         if cfg['reuse']:
             rk['idle_timeout'] = 5.0
         if cfg['auth']:
@@ -922,10 +1327,11 @@ class LmtpLab(Lab):
         s = self.script
         if not s:
             return None
+        text = REPLY_TEXTS.get((self.reply or {}).get('text') or 'plain')
         if s[0] == 'eod' and stage == 'eod%d' % s[1]:
-            return ('reply', s[2])
+            return ('reply', s[2], '%s.0.0 %s' % (s[2][0], text))
         if s[0] == 'rcpt' and stage in ['rcpt%d' % i for i in s[1]]:
-            return ('reply', s[2])
+            return ('reply', s[2], '%s.1.1 %s' % (s[2][0], text))
         return None
 
     def creator(self, address):
@@ -998,9 +1404,12 @@ class HttpLab(Lab):
         else:
             self.edge, self.server, port = http_server(cfg['https'])
         self.edge.queue = self.capq
+        if cfg.get('validators'):
+            self.edge.validator_class = make_wsgi_validators(self)
         url = '%s://127.0.0.1:%d/deliver' % ('https' if cfg['https'] else 'http', port)
+        ehlo = (lambda: EHLO_FN_NAME) if cfg.get('ehlo_fn') else 'relay.test'     # documented: called without arguments
         self.relay = HttpRelay(url, pool_size=1, context=client_ctx() if cfg['https'] else None,
-                               ehlo_as='relay.test', timeout=15, idle_timeout=5.0 if cfg['reuse'] else None)
+                               ehlo_as=ehlo, timeout=15, idle_timeout=5.0 if cfg['reuse'] else None)
 
     def close(self):
         try:
@@ -1014,6 +1423,27 @@ class HttpLab(Lab):
                 pass
             return
         self.edge.queue = None
+        self.edge.validator_class = None
+
+
+def make_wsgi_validators(lab):
+    class RecWsgiValidators(edge_wsgi.WsgiValidators):
+        """Observes what the HTTP edge shows its validators (audit stratum)."""
+
+        def __init__(self, environ):
+            edge_wsgi.WsgiValidators.__init__(self, environ)
+            self.seen = [None, None, []]
+            lab.wsgi_seen.append(self.seen)
+
+        def validate_ehlo(self, ehlo):
+            self.seen[0] = ehlo
+
+        def validate_sender(self, sender):
+            self.seen[1] = sender
+
+        def validate_recipient(self, recipient):
+            self.seen[2].append(recipient)
+    return RecWsgiValidators
 
 
 def shard_cleanup():
@@ -1066,10 +1496,14 @@ def describe_outcome(o):
 def ext_key(transport, cfg):
     if transport == 'smtp':
         return ('smtp', tuple(cfg['drop']), cfg['size'], cfg['tls'], tuple(cfg['auth'] or ()), cfg['mech'],
-                cfg['helo'], cfg['reuse'], cfg['concurrent'], cfg['encoder'])
+                cfg['helo'], cfg['reuse'], cfg['concurrent'], cfg['encoder'],
+                repr(cfg.get('add') or []), repr(cfg.get('post_tls')), repr(cfg.get('conn_drop')),
+                bool(cfg.get('ehlo_fn')), bool(cfg.get('cred_fn')), bool(cfg.get('tls_required')))
     if transport == 'lmtp':
-        return ('lmtp', tuple(cfg['exts']), cfg['pipelining'], cfg['tls'], cfg['auth'], cfg['reuse'])
-    return ('http', cfg['reuse'], cfg['https'], cfg['concurrent'], bool(cfg.get('listener')))
+        return ('lmtp', tuple(cfg['exts']), cfg['pipelining'], cfg['tls'], cfg['auth'], cfg['reuse'],
+                bool(cfg.get('ehlo_fn')))
+    return ('http', cfg['reuse'], cfg['https'], cfg['concurrent'], bool(cfg.get('listener')),
+            bool(cfg.get('validators')), bool(cfg.get('ehlo_fn')))
 
 
 def default_cfg(transport, cfg):
@@ -1104,6 +1538,10 @@ def content_mechanism(transport, cfg, orig, got, bclass):
         ctl = Envelope()
         ctl.parse(orig)
         if b''.join(ctl.flatten()) != orig:
+            if 'ws-only-line' in header_class(orig) and b''.join(ctl.flatten()).replace(b'\r\n', b'') == \
+                    orig.replace(b'\r\n', b''):
+                # a white-space-only continuation line: every parse+flatten (= every hop) adds a blank line
+                return 'envelope/whitespace-only-header-line/blank-line-added-by-every-hop'
             return 'envelope/parse-flatten-not-a-fixed-point-on-this-message'
     except Exception:
         return 'envelope/parse-flatten-raises-on-this-message'
@@ -1160,6 +1598,25 @@ class Judge(object):
         R, t = self.R, self.t
         bclass = body_class(orig.partition(b'\r\n\r\n')[2])
         R.hit('sender-compared')
+        hclass = header_class(bytes(msg['data']))
+        if len(msg['rcpts']) >= 60:
+            R.hit('many-recipients-hop')
+        if 'line>998' in bclass or 'line>998' in hclass:
+            R.hit('long-line-hop')
+        if '>=100kB' in bclass:
+            R.hit('big-body-hop')
+        if set(hclass) & {'no-blank-line', 'bare-lf', 'ws-only-line', 'no-colon-line', 'many-lines'}:
+            R.hit('odd-header-block-hop')
+        for h in hclass:
+            R.count('header-class/%s' % h)
+        # source routes: identical, or the route stripped (RFC 5321 allows a receiver to ignore it)
+        if isinstance(sender, str) and sender != msg['sender'] and same_address(msg['sender'], sender):
+            R.count('source-route-stripped/sender')
+            sender = msg['sender']
+        if isinstance(rcpts, list) and len(rcpts) == len(want_rcpts) and rcpts != want_rcpts and \
+                all(isinstance(g, str) and same_address(w, g) for w, g in zip(want_rcpts, rcpts)):
+            R.count('source-route-stripped/recipient')
+            rcpts = list(want_rcpts)
         if sender != msg['sender']:
             R.violation(altered_mechanism(t, 'sender', msg['sender'], sender),
                         '%s hop: sender arrived altered: sent %r, edge received %r' % (t, msg['sender'], sender),
@@ -1191,7 +1648,10 @@ class Judge(object):
         R.hit('content-compared')
         if content in (orig, orig + b'\r\n'):
             return
-        if conditional and any(c > 127 for c in orig):
+        envelope_cause = content_mechanism(t, self.cfg, orig, content, bclass)
+        if not envelope_cause.startswith('envelope/'):
+            envelope_cause = None
+        if conditional and any(c > 127 for c in orig) and not envelope_cause:
             R.hit('7bit-conversion-judged')
             diff = check_converted(orig, content, self.cfg.get('encoder'))
             if diff is None:
@@ -1200,7 +1660,7 @@ class Judge(object):
                         '%s hop without 8BITMIME: %s (encoder=%s)' % (t, diff, self.cfg.get('encoder')),
                         self.wit(msg, original=orig, received=content))
             return
-        R.violation(content_mechanism(t, self.cfg, orig, content, bclass),
+        R.violation(envelope_cause or content_mechanism(t, self.cfg, orig, content, bclass),
                     '%s hop: content arrived altered (%d bytes sent, %d received; body class %s)'
                     % (t, len(orig), len(content), '+'.join(bclass)),
                     self.wit(msg, original=orig, received=content, body_class=bclass))
@@ -1222,35 +1682,62 @@ class Judge(object):
                             '%s: non-ASCII recipient %r was offered to a server that does not advertise SMTPUTF8'
                             % (t, r), self.wit(msg, recipient=r, received_recipients=received_rcpts))
 
-    # ---- extension tables
-    def extensions(self, adverts, views, configured):
+    # ---- extension tables (compared per connection: the k-th table the client holds after its k-th greeting on
+    #      a connection against the k-th table the server of that connection advertised)
+    def extensions(self, adverts, views, configured_of):
+        """adverts / views: [(connection number, table)] in the order recorded (server side; None for LMTP);
+        configured_of(k) -> the configured tables of connection k."""
         R, t = self.R, self.t
-        per = len(configured)
+        nconn = max(1, self.lab.conns)
+        by_conn_v = dict((k, []) for k in range(nconn))
+        for k, table in views:
+            by_conn_v.setdefault(k if k is not None else 0, []).append(table)
         if t == 'smtp':
+            by_conn_a = dict((k, []) for k in range(nconn))
+            for k, table in adverts:
+                by_conn_a.setdefault(k if k is not None else 0, []).append(table)
             # harness cross-check: the server tables are what was configured, for every connection
-            want = configured * max(1, self.lab.conns)
-            if adverts != want:
-                R.inconclusive('server extension tables differ from the configured advertisement')
-                return
+            for k in range(nconn):
+                if by_conn_a.get(k) != configured_of(k):
+                    R.inconclusive('server extension tables differ from the configured advertisement')
+                    return
         else:
-            adverts = configured * max(1, self.lab.conns)
+            by_conn_a = dict((k, configured_of(k)) for k in range(nconn))
+        cfg = self.cfg
         R.hit('extensions-compared', len(views))
-        expect = [(a if a is not None else {}) for a in adverts]
-        if views != expect:
-            k = next((i for i in range(min(len(views), len(expect))) if views[i] != expect[i]), None)
-            if k is None:
+        if cfg.get('add') or (t == 'lmtp' and self.case['label'] == 'lmtp-odd-exts'):
+            R.hit('extra-extensions-compared')
+        if t == 'smtp' and cfg.get('post_tls') and cfg['tls'] is True:
+            R.hit('post-tls-extensions-compared')
+        if t == 'smtp' and cfg.get('conn_drop') and nconn >= 2 and \
+                len(set(repr(sorted((x or {}).items())) for k in range(nconn) for x in by_conn_a[k])) >= 2:
+            R.hit('multi-connection-extensions-compared')
+        for k in sorted(set(by_conn_a) | set(by_conn_v)):
+            expect = [(a if a is not None else {}) for a in by_conn_a.get(k, [])]
+            mine = by_conn_v.get(k, [])
+            if mine == expect:
+                continue
+            j = next((i for i in range(min(len(mine), len(expect))) if mine[i] != expect[i]), None)
+            if j is None:
                 mech = 'unclassified/%s/extensions/number-of-greetings-differs' % t
-                detail = {'client_tables': views, 'server_tables': expect}
+                detail = {'connection': k, 'client_tables': mine, 'server_tables': expect}
             else:
-                a, v = expect[k], views[k]
+                a, v = expect[j], mine[j]
                 names = sorted(n for n in set(a) | set(v) if a.get(n, 0) != v.get(n, 0))
                 kind = ('parameter-differs' if all(n in a and n in v for n in names) else
                         'name-missing-at-client' if all(n in a for n in names) else 'name-invented-at-client')
-                mech = '%s/extensions/%s/%s' % (t, kind, '+'.join(names))
-                detail = {'greeting': k, 'server_advertised': a, 'client_sees': v, 'differing': names}
+                # stable classes for the audit strata: which stratum's keywords are involved
+                std = set(DEFAULT_EXTS) | {'SIZE', 'AUTH', 'STARTTLS'}
+                shown = [n if n in std else 'extra-keyword' for n in names]
+                mech = '%s/extensions/%s/%s' % (t, kind, '+'.join(sorted(set(shown))))
+                if k > 0 and t == 'smtp' and cfg.get('conn_drop'):
+                    mech += '/on-a-later-connection'
+                detail = {'connection': k, 'greeting': j, 'server_advertised': a, 'client_sees': v, 'differing': names}
             R.violation(mech, '%s: the client\'s extension table differs from what the server advertised: %s'
                         % (t, detail.get('differing', 'count')), dict(detail, config=self.case['label'], cfg=self.cfg))
-        self.R.observe('extension-table', (t, repr(sorted((expect[-1] if expect else {}).items()))))
+            break
+        last = by_conn_a.get(nconn - 1) or [{}]
+        self.R.observe('extension-table', (t, repr(sorted((last[-1] or {}).items()))))
 
 
 def attempt(relay, env):
@@ -1283,6 +1770,7 @@ def run_messages(case, lab, R):
     for k, (m, env, orig) in enumerate(prepared):
         lab.msg_i = k
         lab.script = m['script']
+        lab.reply = m.get('reply')
         lab.reject = [m['rcpts'][i] for i in m['script'][1]] if m['script'] and m['script'][0] == 'rcpt' else ()
         R.eval()
         st, val = watchdog_call(lambda: attempt(lab.relay, env), WATCHDOG)
@@ -1298,7 +1786,8 @@ def nontrivial_key(case, m, orig):
     classes = sorted(set([addr_features(m['sender'])] + [addr_features(r) for r in m['rcpts']]))
     nt = any(needs_care(a) or a == '' for a in [m['sender']] + m['rcpts']) or len(m['rcpts']) >= 2 or \
         not default_cfg(t, cfg)
-    key = (t, tuple(classes), ext_key(t, cfg), body_class(orig.partition(b'\r\n\r\n')[2]))
+    key = (t, tuple(classes), ext_key(t, cfg), body_class(orig.partition(b'\r\n\r\n')[2]), header_class(orig),
+           min(len(m['rcpts']), 60))
     return nt, key
 
 
@@ -1340,9 +1829,17 @@ def judge_smtp_http(case, lab, R, runs):
         used.update(mine)
         recs = [r for r in lab.records if r[0] == k] if not concurrent else []
         script = m['script']
-        cond = may_refuse(t, cfg, m)
+        ck = k if cfg.get('conn_drop') else 0          # 'three servers': message k travels on connection k
+        cond = may_refuse(t, cfg, m, ck)
         sz = size_class(cfg, orig) if t == 'smtp' else 'under'
         delivered = [i for i in mine if got[i]['failed'] is None]
+        qscript = bool(script) and script[0] in ('qerr', 'rerr', 'qerr-noreply')
+        rclass = (m.get('reply') or {}) if script else {}
+        if script and rclass.get('text') not in (None, 'plain') or rclass.get('cmd'):
+            R.hit('reply-text-class-judged')
+            R.count('reply-class/%s/%s' % (rclass.get('text'), rclass.get('cmd')))
+        if script and script[0] == 'rerr':
+            R.hit('queue-relay-error-judged')
 
         # ---- what the relay reported, per recipient
         distinct = list(dict.fromkeys(m['rcpts']))
@@ -1391,7 +1888,12 @@ def judge_smtp_http(case, lab, R, runs):
 
         # ---- reply-code clause
         if t == 'smtp' and not concurrent:
-            judge_reply_smtp(J, m, o, recs, reported, withheld_rcpts(t, cfg, m))
+            judge_reply_smtp(J, m, o, recs, reported, withheld_rcpts(t, cfg, m, ck))
+        elif t == 'http' and not concurrent and not mine:
+            # the request never reached the edge's queue (refused by the HTTP server below the edge, or the edge
+            # application failed before it had an answer): the edge "gave" no SMTP code; an un-scripted message is
+            # judged below as a refused valid hop
+            R.count('reply-clause-skipped/http-request-not-handled-by-the-edge')
         elif t == 'http' and not concurrent:
             want = script[1] if script else '250'
             R.hit('reply-code-compared')
@@ -1399,9 +1901,17 @@ def judge_smtp_http(case, lab, R, runs):
             shape_ok = all((v[0] == 'ok') == (want[0] == '2') for v in reported.values()) and \
                 all(v[0] != 'fail' or v[2] == (want[0] == '5') for v in reported.values())
             if codes != {want} or not shape_ok:
-                R.violation('http/reply-code/edge-%sxx-reported-differently' % want[0],
-                            'http: the edge answered %s, Relay.attempt reports %s' % (want, describe_outcome(o)),
-                            J.wit(m, edge_code=want, outcome=describe_outcome(o)))
+                # the reply classes whose X-Smtp-Reply header the edge cannot build are root causes of their own
+                why = ('bytes-command' if rclass.get('cmd') == 'bytes' else
+                       'multi-line-text' if rclass.get('text') == 'multiline' else
+                       'non-latin1-text' if rclass.get('text') == 'utf8' else None)
+                mech = 'http/reply-code/edge-%sxx-reported-differently' % want[0]
+                if why and mine and o['kind'] == 'relay-error':
+                    mech = 'http/reply-code/reply-with-%s/edge-code-not-reported' % why
+                R.violation(mech,
+                            'http: the edge answered %s (reply classes %s), Relay.attempt reports %s'
+                            % (want, rclass or '-', describe_outcome(o)),
+                            J.wit(m, edge_code=want, reply_classes=rclass, outcome=describe_outcome(o)))
 
         # ---- delivery clause
         expect_refusal = bool(script) or sz == 'over'
@@ -1423,6 +1933,13 @@ def judge_smtp_http(case, lab, R, runs):
             if o['kind'] == 'relay-error' and stage in ('MAIL', 'RCPT'):
                 addr = m['sender'] if stage == 'MAIL' else m['rcpts'][0]
                 mech = address_mechanism(t, addr, o['code'], stage)
+            elif o['kind'] == 'relay-error' and t == 'http' and not mine and len(m['rcpts']) >= 90:
+                # one X-Envelope-Recipient header per recipient: the request is refused before the edge sees it
+                mech = 'http/many-recipients/request-refused-before-the-edge'
+            elif o['kind'] == 'relay-error' and t == 'http' and not mine and cfg.get('reuse') and k > 0 and \
+                    'IncompleteRead' in o['text']:
+                # the previous request on this connection ended in a broken error response of the HTTP server
+                mech = 'http/reuse/request-after-a-broken-error-response-fails/IncompleteRead'
             elif o['kind'] == 'relay-error':
                 mech = 'unclassified/%s/valid-hop-refused/%s-%s' % (t, stage, o['code'])
             else:
@@ -1430,7 +1947,7 @@ def judge_smtp_http(case, lab, R, runs):
             R.violation(mech, '%s: valid envelope not delivered: %s' % (t, describe_outcome(o)),
                         J.wit(m, outcome=describe_outcome(o), edge_records=recs, crashes=list(_crashes[-3:])))
             continue
-        if script and script[0] in ('qerr',):
+        if qscript:
             continue                     # the queue "failed" by script; nothing to compare
         if expect_refusal and script and script[0] in ('mail', 'data', 'have_data'):
             R.violation('unclassified/%s/delivered-although-edge-refused' % t,
@@ -1448,7 +1965,7 @@ def judge_smtp_http(case, lab, R, runs):
         scripted = [m['rcpts'][i] for i in script[1]] if script and script[0] == 'rcpt' else []
         want_rcpts = [r for r in want_rcpts if r not in scripted]
         # non-ASCII recipients without SMTPUTF8: the relay keeps them back; the ASCII ones must arrive as usual
-        held = withheld_rcpts(t, cfg, m)
+        held = withheld_rcpts(t, cfg, m, ck)
         J.withheld(m, held, reported, list(e2.recipients), o)
         want_rcpts = [r for r in want_rcpts if r not in held]
         if t == 'smtp':
@@ -1474,6 +1991,30 @@ def judge_smtp_http(case, lab, R, runs):
             if not e2.client.get('auth') or e2.client['auth'][0] != USER:
                 R.violation('unclassified/smtp/auth/identity-differs',
                             'smtp: edge recorded auth=%r, relay used %r' % (e2.client.get('auth'), USER), J.wit(m))
+        # ---- client info recorded with the message: who the relay said it was, over what.  OBSERVATION ONLY: the
+        #      statement of C06 names sender, recipients, header block, body, extensions and reply code, not the
+        #      edge's bookkeeping of the session; agreements / disagreements are counted in the evidence, never a
+        #      violation.
+        R.hit('client-info-observed')
+        if t == 'smtp':
+            # TLS is in effect when implicit, or when STARTTLS was advertised (never after the HELO fall-back)
+            tls_on = cfg.get('tls') == 'immediate' or (cfg.get('tls') and not cfg.get('helo'))
+            proto = ('SMTP' if cfg.get('helo') else 'ESMTP') + ('S' if tls_on else '') + \
+                ('A' if cfg.get('auth') else '')
+            want_info = {'name': ehlo_name(cfg), 'protocol': proto, 'ip': '127.0.0.1',
+                         'auth': e2.client.get('auth') if cfg.get('auth') else None}
+        else:
+            want_info = {'name': ehlo_name(cfg), 'protocol': 'HTTPS' if cfg.get('https') else 'HTTP',
+                         'ip': '127.0.0.1'}
+        for field in sorted(want_info):
+            if e2.client.get(field) != want_info[field]:
+                what = '%s/%s-differs' % (t, field)
+                if field == 'protocol' and cfg.get('helo') and e2.client.get(field) == 'E' + want_info[field]:
+                    what = 'smtp/protocol-says-ESMTP-after-refused-EHLO-and-HELO'
+                R.count('client-info/disagrees/%s' % what)
+                R.observe('client-info-disagreement', (what, repr(e2.client.get(field)), repr(want_info[field])))
+            else:
+                R.count('client-info/agrees/%s/%s' % (t, field))
         if len(R.samples) < R.MAX_SAMPLES and nt and (case['n'] % 5 == 0):
             R.sample({'transport': t, 'config': case['label'], 'sender': m['sender'], 'recipients': m['rcpts'],
                       'received_sender': e2.sender, 'received_recipients': list(e2.recipients),
@@ -1492,14 +2033,41 @@ def judge_smtp_http(case, lab, R, runs):
             R.observe('connections-per-reuse-case', (t, lab.conns))
         else:
             R.hit('http-reuse-case')
+    if t == 'http' and cfg.get('validators') and not concurrent:
+        # what the edge showed its validators, request by request
+        sent = [(ehlo_name(cfg), m['sender'], list(m['rcpts'])) for m, _, _, o in runs if o['kind'] != 'watchdog']
+        seen = [(x[0], x[1], list(x[2])) for x in lab.wsgi_seen]
+        handled = len(lab.capq.got)
+        if len(seen) != len(sent) and len(seen) == handled:
+            # a request that never reached the edge application (judged above) is not part of this clause
+            R.count('validators-clause-skipped/request-not-handled-by-the-edge')
+            sent = seen
+        R.hit('http-validators-compared', len(seen))
+        if len(seen) == len(sent):
+            # the X-Ehlo value is client info: observed, not judged
+            for a, b in zip(seen, sent):
+                R.count('client-info/%s/http/validators-ehlo' % ('agrees' if a[0] == b[0] else 'disagrees'))
+            seen = [(b[0], a[1], a[2]) for a, b in zip(seen, sent)]
+        if seen != sent:
+            j = next((i for i in range(min(len(seen), len(sent))) if seen[i] != sent[i]), None)
+            what = 'count' if j is None else ['ehlo', 'sender', 'recipients'][
+                next(f for f in range(3) if seen[j][f] != sent[j][f])]
+            R.violation('http/validators/%s-differs' % what,
+                        'http: the edge\'s validators saw %r, the relay sent %r'
+                        % (seen[j] if j is not None else len(seen), sent[j] if j is not None else len(sent)),
+                        {'config': case['label'], 'cfg': cfg})
     if t == 'smtp':
-        J.extensions(list(lab.adverts), list(lab.views), lab.expected_adverts())
+        R.observe('mail-params', repr(sorted(set(tuple(p) for p in lab.mail_params))))
+        if cfg.get('conn_drop') and lab.conns != len(runs):
+            R.inconclusive('three-servers case: %d connections for %d messages' % (lab.conns, len(runs)))
+        else:
+            J.extensions(list(lab.adverts), list(lab.views), lab.expected_adverts)
         if cfg.get('auth') and lab.auths:
             if any(a[0] != USER or not a[2] for a in lab.auths):
                 R.violation('unclassified/smtp/auth/credentials-differ',
                             'smtp: the edge\'s validator saw credentials %r' % (lab.auths,),
                             {'config': case['label'], 'cfg': cfg})
-        if any(x != 'relay.test' for x in lab.ehlo_as + [h[0] for h in lab.helos]):
+        if any(x != ehlo_name(cfg) for x in lab.ehlo_as + [h[0] for h in lab.helos]):
             R.violation('unclassified/smtp/ehlo-identity-differs', 'smtp: edge saw EHLO/HELO %r'
                         % (lab.ehlo_as + lab.helos,), {'config': case['label']})
 
@@ -1587,6 +2155,9 @@ def judge_lmtp(case, lab, R, runs):
             continue
         script = m['script']
         cond = may_refuse(t, cfg, m)
+        rclass = (m.get('reply') or {}) if script else {}
+        if script and rclass.get('text') not in (None, 'plain'):
+            R.hit('reply-text-class-judged')
         mine = [tx for tx in by_marker.get(m['marker'], []) if tx['content'] is not None]
         distinct = list(dict.fromkeys(m['rcpts']))
         reported = {}
@@ -1672,9 +2243,24 @@ def judge_lmtp(case, lab, R, runs):
         J.compare(m, orig, sender, rc, tx['content'], [r for r in m['rcpts'] if r not in held], cond)
     if cfg['reuse'] and lab.conns == 1:
         R.hit('reuse-one-connection')
-    J.extensions(None, list(lab.views), lab.expected_views())
+    views = [(0 if lab.conns <= 1 else None, v) for _, v in lab.views]
+    if lab.conns <= 1:
+        J.extensions(None, views, lambda k: lab.expected_views())
+    else:
+        R.count('extensions-clause-skipped/lmtp-several-connections')
     if cfg['auth']:
         R.hit('auth-hop')
+    # client info (observation only, see judge_smtp_http): the name given with every LHLO vs the configured one
+    names = [l.split(None, 1)[1].strip().decode('latin-1') if len(l.split(None, 1)) > 1 else ''
+             for c in lab.ds.conns for v, l in c.commands if v == 'LHLO']
+    if names:
+        R.hit('client-info-observed')
+        for x in names:
+            if x != ehlo_name(cfg):
+                R.count('client-info/disagrees/lmtp/name-differs')
+                R.observe('client-info-disagreement', ('lmtp/name-differs', repr(x), repr(ehlo_name(cfg))))
+            else:
+                R.count('client-info/agrees/lmtp/name')
 
 
 def run_case(case, R):
